@@ -34,6 +34,9 @@ func CaseName(i int) string {
 	if i == 45 {
 		return "tagged-fields"
 	}
+	if i == 46 {
+		return "docs-before-flags-enum-and-opcode"
+	}
 	if i >= 30 && i < 40 {
 		return "type:" + deepTypes[i-30].name
 	}
